@@ -284,20 +284,20 @@ def oracle_small(case):
     return check_plain(copy.deepcopy(v))
 
 
-prims = st.one_of(
+prims = gen.pick(
     st.none(), st.booleans(), st.integers(), st.integers(-2 ** 70, 2 ** 70), st.sampled_from(PRIMS),
     st.floats(), st.text(gen.TEXT_ALPHABET, max_size=5),
     # str values a file system or a lenient decoder hands out: unpaired surrogates are characters of a str too
     st.sampled_from(["file-\udce9.txt", "\ud800", "a\udfffb", "password", "_ignore", "x"]))
-hashables = st.recursive(prims, lambda c: st.one_of(st.lists(c, max_size=2).map(tuple), st.lists(c, max_size=2).map(frozenset)), max_leaves=4)
-keys = st.one_of(st.text(gen.TEXT_ALPHABET, max_size=3).filter(lambda k: k != "__jsonclass__"), st.integers(-3, 3), st.none(), st.booleans(),
+hashables = st.recursive(prims, lambda c: gen.pick(st.lists(c, max_size=2).map(tuple), st.lists(c, max_size=2).map(frozenset)), max_leaves=4)
+keys = gen.pick(st.text(gen.TEXT_ALPHABET, max_size=3).filter(lambda k: k != "__jsonclass__"), st.integers(-3, 3), st.none(), st.booleans(),
                  st.floats(allow_nan=False), st.tuples(st.integers(0, 2)))
 
 
 def plain_values(max_leaves):
     return st.recursive(
         prims,
-        lambda c: st.one_of(
+        lambda c: gen.pick(
             st.lists(c, max_size=4), st.lists(c, max_size=4).map(tuple),
             st.lists(hashables, max_size=3).map(set), st.lists(hashables, max_size=3).map(frozenset),
             st.dictionaries(keys, c, max_size=4),
@@ -355,7 +355,7 @@ bad_desc = st.sampled_from([
 def payloads(draw, depth=0):
     kind = draw(st.sampled_from(["prim", "list", "dict", "good", "good", "bad"] if depth < 3 else ["prim", "bad", "good"]))
     if kind == "prim":
-        return draw(st.one_of(st.integers(0, 3), st.text(max_size=2), st.none()))
+        return draw(gen.pick(st.integers(0, 3), st.text(max_size=2), st.none()))
     if kind == "list":
         return draw(st.lists(payloads(depth + 1), max_size=3))
     if kind == "dict":
@@ -424,7 +424,7 @@ def oracle_failure(case):
 def dump_failure_cases(draw):
     # positions at which an object with a raising serialisation method sits
     return draw(st.recursive(st.sampled_from(["BAD", "BAD", 1, "s", None, "CYCLE"]),
-                             lambda c: st.one_of(st.lists(c, max_size=3), st.lists(c, max_size=3).map(tuple), st.dictionaries(st.sampled_from(["a", "b"]), c, max_size=2)),
+                             lambda c: gen.pick(st.lists(c, max_size=3), st.lists(c, max_size=3).map(tuple), st.dictionaries(st.sampled_from(["a", "b"]), c, max_size=2)),
                              max_leaves=6))
 
 
